@@ -715,3 +715,195 @@ pub fn generate(rng: &mut Rng, cfg: GenCfg, want: Base) -> Frag {
     let mut g = Gen::new(rng, cfg);
     g.gen(want, budget)
 }
+
+// --------------------------------------------------------------------------
+// A small, independent parser of the miniscript text syntax into `Frag`
+// (used for corpora and for validating the specification model against the
+// Alloy-derived vectors of src/miniscript/ms_tests.rs).
+
+pub struct ParseCtx {
+    pub key_names: Vec<String>,
+    pub hash_names: Vec<String>,
+    pub default_form: KeyForm,
+}
+
+impl ParseCtx {
+    pub fn new(default_form: KeyForm) -> Self {
+        ParseCtx { key_names: vec![], hash_names: vec![], default_form }
+    }
+    fn key(&mut self, name: &str) -> KeyRef {
+        let id = match self.key_names.iter().position(|k| k == name) {
+            Some(i) => i,
+            None => {
+                self.key_names.push(name.to_string());
+                self.key_names.len() - 1
+            }
+        };
+        KeyRef { id, form: self.default_form }
+    }
+    fn hash(&mut self, name: &str) -> usize {
+        match self.hash_names.iter().position(|k| k == name) {
+            Some(i) => i,
+            None => {
+                self.hash_names.push(name.to_string());
+                self.hash_names.len() - 1
+            }
+        }
+    }
+}
+
+/// Split "name(args...)" at top-level commas.
+fn split_args(s: &str) -> Result<Vec<&str>, String> {
+    let mut out = vec![];
+    let mut depth = 0i32;
+    let mut start = 0;
+    for (i, c) in s.char_indices() {
+        match c {
+            '(' => depth += 1,
+            ')' => {
+                depth -= 1;
+                if depth < 0 {
+                    return Err("unbalanced )".into());
+                }
+            }
+            ',' if depth == 0 => {
+                out.push(&s[start..i]);
+                start = i + 1;
+            }
+            _ => {}
+        }
+    }
+    if depth != 0 {
+        return Err("unbalanced (".into());
+    }
+    out.push(&s[start..]);
+    Ok(out)
+}
+
+pub fn parse_frag(s: &str, pc: &mut ParseCtx) -> Result<Frag, String> {
+    let s = s.trim();
+    // wrappers: prefix up to ':' that has no '(' before it
+    if let Some(colon) = s.find(':') {
+        let paren = s.find('(').unwrap_or(usize::MAX);
+        if colon < paren {
+            let (w, rest) = (&s[..colon], &s[colon + 1..]);
+            if w.is_empty() {
+                return Err("empty wrapper".into());
+            }
+            let mut f = parse_frag(rest, pc)?;
+            for ch in w.chars().rev() {
+                let b = Box::new(f);
+                f = match ch {
+                    'a' => Frag::Alt(b),
+                    's' => Frag::Swap(b),
+                    'c' => Frag::Check(b),
+                    'd' => Frag::DupIf(b),
+                    'v' => Frag::Verify(b),
+                    'j' => Frag::NonZero(b),
+                    'n' => Frag::ZeroNotEqual(b),
+                    't' => Frag::AndV(b, Box::new(Frag::True)),
+                    'u' => Frag::OrI(b, Box::new(Frag::False)),
+                    'l' => Frag::OrI(Box::new(Frag::False), b),
+                    x => return Err(format!("unknown wrapper {}", x)),
+                };
+            }
+            return Ok(f);
+        }
+    }
+    if s == "0" {
+        return Ok(Frag::False);
+    }
+    if s == "1" {
+        return Ok(Frag::True);
+    }
+    let open = s.find('(').ok_or_else(|| format!("no ( in {}", s))?;
+    if !s.ends_with(')') {
+        return Err("no closing )".into());
+    }
+    let name = &s[..open];
+    let inner = &s[open + 1..s.len() - 1];
+    let args = split_args(inner)?;
+    let bx = |f: Frag| Box::new(f);
+    let num = |a: &str| a.trim().parse::<u32>().map_err(|_| format!("bad number {}", a));
+    let two = |pc: &mut ParseCtx| -> Result<(Frag, Frag), String> {
+        if args.len() != 2 {
+            return Err(format!("{} needs 2 args", name));
+        }
+        Ok((parse_frag(args[0], pc)?, parse_frag(args[1], pc)?))
+    };
+    Ok(match name {
+        "pk_k" => Frag::PkK(pc.key(inner)),
+        "pk_h" => Frag::PkH(pc.key(inner)),
+        "pk" => Frag::Check(bx(Frag::PkK(pc.key(inner)))),
+        "pkh" => Frag::Check(bx(Frag::PkH(pc.key(inner)))),
+        "after" => Frag::After(num(inner)?),
+        "older" => Frag::Older(num(inner)?),
+        "sha256" => Frag::Sha256(pc.hash(inner)),
+        "hash256" => Frag::Hash256(pc.hash(inner)),
+        "ripemd160" => Frag::Ripemd160(pc.hash(inner)),
+        "hash160" => Frag::Hash160(pc.hash(inner)),
+        "and_v" => {
+            let (a, b) = two(pc)?;
+            Frag::AndV(bx(a), bx(b))
+        }
+        "and_b" => {
+            let (a, b) = two(pc)?;
+            Frag::AndB(bx(a), bx(b))
+        }
+        "and_n" => {
+            let (a, b) = two(pc)?;
+            Frag::AndOr(bx(a), bx(b), bx(Frag::False))
+        }
+        "or_b" => {
+            let (a, b) = two(pc)?;
+            Frag::OrB(bx(a), bx(b))
+        }
+        "or_c" => {
+            let (a, b) = two(pc)?;
+            Frag::OrC(bx(a), bx(b))
+        }
+        "or_d" => {
+            let (a, b) = two(pc)?;
+            Frag::OrD(bx(a), bx(b))
+        }
+        "or_i" => {
+            let (a, b) = two(pc)?;
+            Frag::OrI(bx(a), bx(b))
+        }
+        "andor" => {
+            if args.len() != 3 {
+                return Err("andor needs 3 args".into());
+            }
+            Frag::AndOr(
+                bx(parse_frag(args[0], pc)?),
+                bx(parse_frag(args[1], pc)?),
+                bx(parse_frag(args[2], pc)?),
+            )
+        }
+        "thresh" => {
+            if args.len() < 2 {
+                return Err("thresh needs k and children".into());
+            }
+            let k = num(args[0])? as usize;
+            let mut xs = vec![];
+            for a in &args[1..] {
+                xs.push(parse_frag(a, pc)?);
+            }
+            Frag::Thresh(k, xs)
+        }
+        "multi" | "sortedmulti" | "multi_a" | "sortedmulti_a" => {
+            if args.len() < 2 {
+                return Err("multi needs k and keys".into());
+            }
+            let k = num(args[0])? as usize;
+            let ks: Vec<KeyRef> = args[1..].iter().map(|a| pc.key(a.trim())).collect();
+            match name {
+                "multi" => Frag::Multi(k, ks),
+                "sortedmulti" => Frag::SortedMulti(k, ks),
+                "multi_a" => Frag::MultiA(k, ks),
+                _ => Frag::SortedMultiA(k, ks),
+            }
+        }
+        x => return Err(format!("unknown fragment {}", x)),
+    })
+}
